@@ -174,13 +174,13 @@ QuickProfiles ==
 
 ThoroughProfiles ==
     { Prof(1, ModsQ01, 3, {0, 1, 2}, <<1>>),
-      Prof(1, ModsQ2, 2, {0, 1, 2}, <<2>>),
-      Prof(2, ModsQ0, 3, {0, 1, 2}, <<1, 2>>),
-      Prof(2, ModsQ1, 3, {0, 1, 2}, <<12, 60>>),
-      Prof(2, ModsQ1, 2, {1, 2}, <<1, 4>>),
-      Prof(2, ModsQ2, 2, {0, 1, 2}, <<30, 60>>),
-      Prof(3, ModsQ01, 3, {0, 1, 2}, <<60, 150, 150>>),
-      Prof(3, ModsQ1, 2, {1, 2}, <<4, 8, 8>>),
+      Prof(1, ModsQ2, 2, {0, 1, 2}, <<3>>),
+      Prof(2, ModsQ0, 3, {0, 1, 2}, <<1, 3>>),
+      Prof(2, ModsQ1, 3, {0, 1, 2}, <<16, 80>>),
+      Prof(2, ModsQ1, 2, {1, 2}, <<1, 6>>),
+      Prof(2, ModsQ2, 2, {0, 1, 2}, <<40, 80>>),
+      Prof(3, ModsQ01, 3, {0, 1, 2}, <<80, 200, 200>>),
+      Prof(3, ModsQ1, 2, {1, 2}, <<5, 10, 10>>),
       Prof(3, ModsQ2, 2, {1, 2}, <<60, 80, 80>>) }
 
 CanaryProfiles == {Prof(2, {<<1>>}, 2, {1, 2}, <<20, 20>>)}
